@@ -50,14 +50,16 @@ type Case struct {
 	PACPos    string   `json:"pac_pos,omitempty"`       // where the AD-IF-RELEVANT { AD-WIN2K-PAC } element sits among the ticket's authorization data: "" = alone, behind-empty, behind-restriction, behind-two, before-other
 	Trailing  string   `json:"wire_trailing,omitempty"` // "" | "forged-encpart": unauthenticated clear-text EncTicketPart-shaped SEQUENCE appended to the Ticket on the wire
 	// authenticator
-	ACName   string `json:"auth_cname"`
-	ACRealm  string `json:"auth_crealm"`
-	CTimeOff int64  `json:"ctime_off_ms"`
-	AUsage   uint32 `json:"auth_usage"`
-	AKey     string `json:"auth_key"` // session | unrelated
-	AMut     string `json:"auth_mut,omitempty"`
-	SubKey   bool   `json:"subkey"`
-	Seq      bool   `json:"seq"`
+	CNameType  int    `json:"cname_type,omitempty"`      // name type of the ticket's cname (0 = 1, NT-PRINCIPAL)
+	ACNameType int    `json:"auth_cname_type,omitempty"` // name type of the authenticator's cname (0 = 1); RFC 4120 6.2: the type is a hint and takes no part in comparisons
+	ACName     string `json:"auth_cname"`
+	ACRealm    string `json:"auth_crealm"`
+	CTimeOff   int64  `json:"ctime_off_ms"`
+	AUsage     uint32 `json:"auth_usage"`
+	AKey       string `json:"auth_key"` // session | unrelated
+	AMut       string `json:"auth_mut,omitempty"`
+	SubKey     bool   `json:"subkey"`
+	Seq        bool   `json:"seq"`
 	// settings
 	SkewSec     int    `json:"skew_s"` // 0 = library default (300 s)
 	RequireAddr bool   `json:"require_host_addr"`
@@ -313,12 +315,20 @@ func uniqueMicro(t time.Time) time.Time {
 
 // Addresses used in tickets and settings.
 var addrBytes = map[string][]byte{"A": {10, 1, 1, 1}, "B": {10, 2, 2, 2}, "C": {10, 3, 3, 3},
-	"V6": {0x20, 0x01, 0x0d, 0xb8, 0, 0, 0, 0, 0, 0, 0, 0, 0x0a, 0x01, 0x01, 0x01}} // V6 embeds A's four octets: another address family
+	"V6":  {0x20, 0x01, 0x0d, 0xb8, 0, 0, 0, 0, 0, 0, 0, 0, 0x0a, 0x01, 0x01, 0x01}, // V6 embeds A's four octets: another address family
+	"NB":  []byte("WORKSTATION12   "),                                               // a NetBIOS name (type 20), as Windows KDCs put into tickets: not an address any peer can come from
+	"DIR": {0, 0, 0, 1},                                                             // a directional address (type 3)
+	"A20": {10, 1, 1, 1}}                                                            // A's four octets declared as a NetBIOS address
 
 // AddrType is the Kerberos address type of a named address.
 func AddrType(n string) int32 {
-	if n == "V6" {
+	switch n {
+	case "V6":
 		return 24
+	case "NB", "A20":
+		return 20
+	case "DIR":
+		return 3
 	}
 	return 2
 }
@@ -400,7 +410,7 @@ func (c *Case) Mint(samplePAC []byte) (*Minted, error) {
 		Realm: c.TktRealm, SName: c.TktSName, SNameType: 2,
 		EncKey: mint.Key{EType: c.TktEType, Value: c.K(c.TktKey, c.TktEType)}, Usage: c.TktUsage,
 		Conf:  kgen.DetBytes(c.Seed, "c01/tconf", 16),
-		Flags: c.Flags, Session: sess, CRealm: c.CRealm, CName: cn(c.CName), CNameType: 1,
+		Flags: c.Flags, Session: sess, CRealm: c.CRealm, CName: cn(c.CName), CNameType: max(1, c.CNameType),
 		AuthTime: at(c.AuthOff).Truncate(time.Second), EndTime: at(c.EndOff).Truncate(time.Second),
 		MutateCipher: mutator(c.TktMut),
 	}
@@ -484,7 +494,7 @@ func (c *Case) Mint(samplePAC []byte) (*Minted, error) {
 		// coupling such cases by giving each a client time (microsecond resolution) no other case has used
 		ctime = uniqueMicro(ctime)
 	}
-	a := &mint.AuthSpec{CRealm: c.ACRealm, CName: cn(c.ACName), CNameType: 1, CTime: ctime,
+	a := &mint.AuthSpec{CRealm: c.ACRealm, CName: cn(c.ACName), CNameType: max(1, c.ACNameType), CTime: ctime,
 		Key: akey, Usage: c.AUsage, Conf: kgen.DetBytes(c.Seed, "c01/aconf", 16), MutateCipher: mutator(c.AMut)}
 	m := &Minted{Now: now, EndTime: t.EndTime, CName: t.CName, CRealm: c.CRealm, Session: sess}
 	if c.SubKey {
@@ -620,6 +630,16 @@ var Defects = map[string]func(c *Case){
 	"wire-trailing-forged-encpart-no-caddr": func(c *Case) { c.Trailing = "forged-encpart"; c.CAddr = nil; c.StartOff = nil },
 	"cname-empty":                           func(c *Case) { c.CName = ""; c.ACName = "" },
 	"crealm-mismatch":                       func(c *Case) { c.ACRealm = "EVIL.ORG" },
+	// name types are hints (RFC 4120 6.2): they neither decide acceptance nor change the identity that is reported, also
+	// when the name looks like user@REALM
+	"auth-nametype-enterprise":      func(c *Case) { c.ACNameType = 10 },
+	"auth-nametype-srv-inst":        func(c *Case) { c.ACNameType = 2 },
+	"cname-at-sign":                 func(c *Case) { c.CName, c.ACName = "alice@EVIL.ORG", "alice@EVIL.ORG" },
+	"cname-at-sign-auth-enterprise": func(c *Case) { c.CName, c.ACName, c.ACNameType = "alice@EVIL.ORG", "alice@EVIL.ORG", 10 },
+	"cname-at-sign-both-enterprise": func(c *Case) {
+		c.CName, c.ACName, c.CNameType, c.ACNameType = "alice@EVIL.ORG", "alice@EVIL.ORG", 10, 10
+	},
+	"cname-at-sign-ticket-enterprise": func(c *Case) { c.CName, c.ACName, c.CNameType = "alice@EVIL.ORG", "alice@EVIL.ORG", 10 },
 	// names and realms are case-sensitive octet strings: the same word in another letter case is another principal / realm
 	"crealm-other-case":       func(c *Case) { c.ACRealm = strings.ToLower(c.CRealm) },
 	"crealm-other-case-first": func(c *Case) { c.ACRealm = swapCaseFirst(c.CRealm) },
@@ -642,9 +662,16 @@ var Defects = map[string]func(c *Case){
 	"caddr-V6":           func(c *Case) { c.CAddr = []string{"V6"} },
 	"caddr-A-V6":         func(c *Case) { c.CAddr = []string{"A", "V6"} },
 	"caddr-none":         func(c *Case) { c.CAddr = nil },
-	"flag-invalid":       func(c *Case) { c.Flags |= mint.Flag(7) },
-	"pac-good":           func(c *Case) { c.PAC = "good" },
-	"pac-badsig":         func(c *Case) { c.PAC = "badsig" },
+	// addresses of the other registered kinds: no kind is exempt from the comparison, alone or next to others
+	"caddr-NB":     func(c *Case) { c.CAddr = []string{"NB"} },
+	"caddr-NB-B":   func(c *Case) { c.CAddr = []string{"NB", "B"} },
+	"caddr-A-NB":   func(c *Case) { c.CAddr = []string{"A", "NB"} },
+	"caddr-DIR":    func(c *Case) { c.CAddr = []string{"DIR"} },
+	"caddr-A20":    func(c *Case) { c.CAddr = []string{"A20"} },
+	"caddr-NB-NB":  func(c *Case) { c.CAddr = []string{"NB", "NB"} },
+	"flag-invalid": func(c *Case) { c.Flags |= mint.Flag(7) },
+	"pac-good":     func(c *Case) { c.PAC = "good" },
+	"pac-badsig":   func(c *Case) { c.PAC = "badsig" },
 	// a PAC element that cannot even be parsed fails verification all the more
 	"pac-broken-table":  func(c *Case) { c.PAC = "broken-table" },
 	"pac-broken-header": func(c *Case) { c.PAC = "broken-header" },
